@@ -1,0 +1,1 @@
+//! Verification hooks: `transports` (thin pass-through wrappers; feature `verif-hooks` only).
